@@ -9,7 +9,7 @@
    clause of join() - or cancel_remaining() in __aexit__ - waits for cancelled members, it
    ends at once with members still running; C09_refuted_* give the witnesses, which the
    harness replays on the real class. *)
-From AV Require Import Base Gen_curio TaskGroup TaskGroupProofs.
+From AV Require Import Base Gen_curio TaskGroup TaskGroupProofs TaskGroupCode TaskGroupCodeProofs.
 
 Theorem C09_probe_recancels : join_recancels_late_members = true.
 Proof. reflexivity. Qed.
@@ -84,6 +84,22 @@ Example C09_ex_late_member :
     = JEnded false true true.
 Proof. vm_compute. repeat split. Qed.
 
+(* TaskGroup._on_done and TaskGroup._add_task are translated from the Python source on every run, statement by
+   statement (gen/Gen_curio.v: on_done_code, add_task_code); nothing was left untranslated, and run on the model's
+   state the generated code does exactly what the model's on_done / add_task do - for every group state, every
+   task (daemon or not, running / cancel-requested / already finished with any outcome) *)
+Theorem C09_code_known : gknown 6 on_done_code && gknown 6 add_task_code = true.
+Proof. exact taskgroup_code_known. Qed.
+
+Theorem C09_on_done_from_source : forall g t m, get t (members g) = Some m ->
+  grun 12 (view g t) g {| c_t := t; c_daemon := m_daemon m; c_status := m_status m |} on_done_code = GOk (on_done g t).
+Proof. exact generated_on_done. Qed.
+
+Theorem C09_add_task_from_source : forall g t d st,
+  grun 20 (view g t) g {| c_t := t; c_daemon := d; c_status := st |} add_task_code =
+  if snd (add_task g t d st) then GOk (fst (add_task g t d st)) else GRaised.
+Proof. exact generated_add_task. Qed.
+
 Print Assumptions C09_probe_recancels.
 Print Assumptions C09_probe_refused.
 Print Assumptions C09_join_complete.
@@ -93,3 +109,6 @@ Print Assumptions C09_no_add_after_join.
 Print Assumptions C09_unfinished_are_tracked.
 Print Assumptions C09_refuted_cancel_during_finally.
 Print Assumptions C09_refuted_cancel_during_cancel_remaining.
+Print Assumptions C09_code_known.
+Print Assumptions C09_on_done_from_source.
+Print Assumptions C09_add_task_from_source.
